@@ -1,28 +1,147 @@
-"""Per-property claim metadata (level, explanation, assumptions). MANIFEST.json is generated from this."""
+"""Per-property claim metadata (level, technique, explanation, assumptions). MANIFEST.json is generated from this
+table by `python3 -m sfv.tools.mkmanifest`; evidence files take level/explanation/assumptions from it."""
 PROPS = {}
 
+COMMON_ASSUME = [
+    "the rustc 1.97-nightly front end (THIR, trait resolution, const-eval, layout_of) is trusted; the analysed program is the one the "
+    "stable test-suite builds (the cfg feature=\"nightly\" injected by build.rs is dropped; the nightly variant is an extra thorough config)",
+    "target x86-64 little endian, 64-bit usize",
+    "third-party crates (byteorder, bzip2, ring, bit-vec, arrayvec ...) behave as documented; their bodies are not analysed",
+]
 
-def prop(pid, level, technique, text, explanation, assumptions, note):
+
+def prop(pid, level, technique, text, explanation, assumptions, note, design_ref):
     PROPS[pid] = {"level": level, "technique": technique, "text": text, "explanation": explanation,
-                  "assumptions": assumptions, "note": note}
+                  "assumptions": assumptions + COMMON_ASSUME, "note": note, "design_ref": design_ref}
 
 
-prop("C01", "other", "static sibling-agreement analysis (THIR wire-shape regex containment)",
-     "x", "x", ["x"], "x")
-prop("C02", "other", "x", "x", "x", ["x"], "x")
-prop("C06", "other", "x", "x", "x", ["x"], "x")
-prop("C07", "other", "x", "x", "x", ["x"], "x")
-prop("C08", "other", "x", "x", "x", ["x"], "x")
-prop("C14", "other", "x", "x", "x", ["x"], "x")
-prop("C05", "other", "x", "x", "x", ["x"], "x")
-prop("C10", "other", "x", "x", "x", ["x"], "x")
-prop("C11", "other", "x", "x", "x", ["x"], "x")
-prop("C13", "other", "x", "x", "x", ["x"], "x")
-prop("C15", "other", "x", "x", "x", ["x"], "x")
-prop("C03", "translation_validation", "x", "x", "x", ["x"], "x")
-prop("C04", "translation_validation", "x", "x", "x", ["x"], "x")
-prop("C18", "translation_validation", "x", "x", "x", ["x"], "x")
-prop("C17", "other", "x", "x", "x", ["x"], "x")
-prop("C16", "other", "x", "x", "x", ["x"], "x")
-prop("C12", "other", "x", "x", "x", ["x"], "x")
-prop("C09", "other", "x", "x", "x", ["x"], "x")
+prop("C01", "other", "static sibling-agreement analysis: wire-shape regular languages extracted from THIR, containment writer ⊆ reader",
+     "Decides the structural clause 'loading consumes exactly the bytes saving produced, into the same fields': for every Serialize/"
+     "Deserialize impl pair of the library, every derived impl of the witness corpus and the container header, for every version class "
+     "and Packed-guard assignment, every byte-sequence shape the writer can emit is one the reader consumes (tags refine to the matching "
+     "arm); raw-copy paths are only equal to the field-wise paths where the Packed decision is sound (P2). Value equality is not decided.",
+     "Rules W1 (≈92 library impl pairs), W4 (container header), W5 (derived impls of ≈300 corpus definitions vs the documented model), "
+     "W6 (field flow), P2 (Packed decision vs rustc layout). Each obligation is one impl pair / corpus definition checked over all "
+     "version classes and guard assignments by NFA containment with minterm-refined tag alphabets.",
+     ["nested values are compared compositionally (a nested type is a symbol checked at its own impl)",
+      "equality of values (float bits, hash-set equality, Arc<str> sharing), bzip2/ring internals and CryptoWriter chunk arithmetic are not decided"],
+     "necessary condition of round-trip fidelity; not a proof of value equality", "DESIGN.md §3 C01")
+
+prop("C02", "other", "static conformance check: writer wire languages vs a frozen specification of the documented format",
+     "Decides that the event language of every library writer, of the container header and of every derived writer equals a frozen, "
+     "hand-reviewed specification of the documented format (widths, little endian, u64 lengths, tag values, field order, discriminant = "
+     "variant index in the documented width). A change applied consistently to writer and reader is reported although round trips still pass.",
+     "Rules W3 (spec/wire_spec.json: 96 writers incl. header, language equality modulo expansion of nested values), W4, W5 (corpus model).",
+     ["iteration order of hash containers and byteorder's numeric encoding are trusted",
+      "a byte sink idiom the classifier does not know yields 'undecided', never an alarm"],
+     "conformance of the writer's shape; the byte values of primitives are byteorder's", "DESIGN.md §3 C02, Appendix A")
+
+prop("C03", "translation_validation", "translation validation of derive output on an enumerated corpus of evolution histories (THIR wire languages + field flow vs model)",
+     "For every enumerated evolution history (edit scripts of add/remove/retype over packed and non-packed bases) and every pair "
+     "saved version k ≤ loading definition j: the reader derived from definition j, specialised to file version k, consumes exactly the "
+     "language definition k's writer produces (= the timeline model), initialises retained fields from reads of their historical type, "
+     "removed fields by read-and-discard, added fields by exactly the documented default and converted fields through the documented conversion.",
+     "Rules H1 (histories × version pairs), W5, W6 on the corpus; F2 (version origin) via W4.",
+     ["histories outside the enumerated scripts and the values produced by user conversion/default functions are not decided"],
+     "bounded by the corpus: scripts of ≤2 edits (quick) / ≤3 (thorough), all positions", "DESIGN.md §3 C03")
+
+prop("C04", "translation_validation", "three-valued evaluation of the pure Packed decision functions against rustc's layout_of (independent oracle)",
+     "(a) whenever repr_c_optimization_safe(v) can answer yes for a corpus type, rustc's layout of that type is byte-identical to its "
+     "field-by-field encoding at v; (b) every raw memory event of every library and derived impl is only reachable under the Packed guard "
+     "(or an adjacency guard that the layout confirms); (c) writer and reader branch on the same guard (W1 over guard assignments).",
+     "Rules P2 (decision ⇒ PackedOK for ≈300 corpus types × versions), P3 (raw events guarded, all impls), W1/W5 over both guard values.",
+     ["tuple and nalgebra packedness (memoffset pointer arithmetic) are undecided", "equality of loaded values between the two paths follows from (a)+(b)+W1 and is not separately observed"],
+     "decision soundness relative to the compiler's own layout tables on this target", "DESIGN.md §3 C04")
+
+prop("C05", "other", "static comparison-table extraction (which access paths are compared, with which polarity) + container shape",
+     "Decides that the gate is complete: diff_schema compares every wire-relevant fact of each schema variant with a difference-reporting "
+     "result, recurses into every nested schema, reports mismatched variants, and never lets names or memory-layout annotations influence "
+     "the result; the header/schema section is read in the order it is written.",
+     "Rules Q1 (35 table obligations from the property statement), W4 (header sequence).",
+     ["that every pair of differently encoded types has different schemas additionally needs C12 for each type"],
+     "completeness of the comparison and presence of the header sequence", "DESIGN.md §3 C05, Appendix B")
+
+prop("C06", "other", "static interval/taint analysis of values read from the stream + triaged panic-site inventory + layout validity oracle",
+     "On every deserialization path of savefile (and the derived readers of the corpus): no unchecked * + << on an untrusted value can "
+     "overflow given the dominating reject-guards (T1); an untrusted length reaching set_len/from_raw_parts/pointer arithmetic is the "
+     "allocated size or bounded against it (T2); every panicking construct is triaged as data-independent (T3); no error result is "
+     "unwrapped (I3); types with restricted bit patterns are never bulk-copyable (P5, three known findings).",
+     "Rules T1 (interval analysis per reader function), T2, T3 (spec/panic_sites.json), I3, P5.",
+     ["trusted lengths/offsets are ≤ isize::MAX and element sizes < 2^31", "panics inside third-party crates, stack exhaustion and OOM are not decided"],
+     "absence of the enumerated defect classes on all paths, not absence of all panics", "DESIGN.md §3 C06, Appendix C")
+
+prop("C07", "other", "static exact-read discipline (who-may-call) + result discipline + writer⊆reader containment",
+     "With every read of the input being an exact read (I1), every read error propagated (I3) and the load consuming exactly the shapes "
+     "the save produced (W1/W4), any cut inside the consumed bytes yields Err for the plain and schema-less containers; the compressed "
+     "stream is finished explicitly (I4).",
+     "Rules I1 (all Read/ReadBytesExt call sites), I3 on reader-side functions, I4, W1, W4.",
+     ["truncation inside a bzip2 stream and CryptoReader's hand-written chunk loop need execution and are not decided"],
+     "sound static argument for the plain containers only", "DESIGN.md §3 C07")
+
+prop("C08", "other", "static error/exact-write discipline and typestate rules over THIR path languages",
+     "All output goes through write_all/byteorder (I2); every io::Error/SavefileError/ring result is propagated or handled by an "
+     "error-producing arm (I3); a BzEncoder is finish()ed and the sink flushed on every Ok path (I4, I5); a destructor does not retry and "
+     "panic after a failed flush (I6).",
+     "Rules I2, I3 (≈480 call sites), I4, I5, I6.",
+     ["hangs and chunking independence of CryptoReader's manual loop under Interrupted are not decided",
+      "known finding: Drop of a never-flushed CryptoWriter panics when its implicit flush fails (documented behaviour)"],
+     "error discipline on all paths", "DESIGN.md §3 C08")
+
+prop("C11", "other", "static comparison-table extraction for Schema::layout_compatible",
+     "layout_compatible answers yes only if size, alignment, every field offset, discriminant width and values, collection layouts are "
+     "known on both sides and equal, recursively; Option/Custom/closures and mismatched variants answer no.",
+     "Rule Q3 (38 table obligations).",
+     ["behaviour under a different compiler is covered only in so far as the schema is the sole channel"],
+     "conservativeness of the decision function", "DESIGN.md §3 C11")
+
+prop("C12", "other", "schema constructor trees read off THIR, translated to the language a schema-driven reader parses, containment writer ⊆ schema",
+     "For every library type with a literal schema constructor tree the language its writer emits is contained in the language described "
+     "by its schema; recursion guards name the type whose schema they wrap.",
+     "Rules W7 (≈90 types), W10 (20 recursion guards). Known findings: SocketAddr, Result, HashMap/IndexMap guards.",
+     ["run-time dependent parts of a schema (Vec/String layout probes) are not decided; BitVec/BitSet are undecided (raw storage slice)"],
+     "faithfulness of the schema's shape", "DESIGN.md §3 C12")
+
+prop("C13", "other", "writer⊆reader containment for the schema node types + reflexivity/completeness tables for diff_schema",
+     "Schema, SchemaStruct, SchemaEnum, Variant, Field, SchemaArray, SchemaPrimitive and the ABI definition types written at format "
+     "versions ≥1 are read back by their readers (W1 over version classes 1..3); diff_schema reports differences only from comparisons of "
+     "corresponding paths (Q2) and compares every wire-relevant fact (Q1).",
+     "Rules W1 (schema types), Q1, Q2. Known finding: Undefined vs Undefined reports a difference by design.",
+     ["the byte-exact format 0 of old releases has no reference in the repository"],
+     "shape agreement and comparison tables", "DESIGN.md §3 C13")
+
+prop("C14", "other", "static necessary conditions in savefile's AEAD wrapper (result discipline, bounded chunk length)",
+     "Only the structural necessary conditions: the result of open_in_place/seal is inspected and its Err becomes an Err; the header read "
+     "cannot panic; the chunk length read from the file is bounded before it sizes a buffer (T1). The cryptographic guarantee itself is ring's.",
+     "Rules I3 (crypto module), T1/T3 on CryptoReader.",
+     ["that modification of nonce/length/ciphertext/tag is detected is ring's AES-256-GCM and is not decided here"],
+     "necessary conditions only", "DESIGN.md §3 C14")
+
+prop("C15", "other", "static comparison-table extraction for the ledger comparison + position-flag consistency",
+     "verify_backward_compatible: a recorded method missing now, a changed argument count, argument schema, return schema or async flag "
+     "each lead to Err; return values are compared in return position.",
+     "Rules Q4, Q6.",
+     ["file-system behaviour is not decided"],
+     "completeness of the ledger comparison", "DESIGN.md §3 C15")
+
+prop("C16", "other", "static lock-order / held-lock effect analysis over the resolved call graph",
+     "Deadlock-freedom necessary conditions: all shared mutable state is a Mutex or atomic (L3); the lock-order graph over the three "
+     "process-wide caches is acyclic without self edges (L1); while a cache guard is live only negotiation messages leave the image, "
+     "their callbacks and in-image handlers acquire no cache lock, and no RegularCall is issued under a lock (L2).",
+     "Rules L1, L2, L3.",
+     ["'same results as sequential execution' (linearizability) is not decided", "user constructors run under CreateInstance execute in the plugin image with its own statics"],
+     "necessary conditions for deadlock freedom", "DESIGN.md §3 C16")
+
+prop("C17", "other", "static classification of introspect_child / introspect_len shapes",
+     "First sentence only: for every Introspect impl (≈90 library, ≈300 derived) the children served by introspect_child and the count "
+     "reported by introspect_len belong to the same class (len, 2·len, literal k with indices 0..k-1, delegation), per enum variant.",
+     "Rule S1.",
+     ["navigation never panics / total_index relations rest on run-time index arithmetic and are not decided"],
+     "child-count consistency only", "DESIGN.md §3 C17")
+
+prop("C18", "translation_validation", "translation validation of derived writers specialised to older versions against the timeline model",
+     "For every add/remove evolution history and k < j: the writer derived from definition j, told to write version k, emits exactly the "
+     "version-k layout (later fields omitted, AbiRemoved fields filled from their value constructor) or diverges where a plain Removed "
+     "field would have to be written; the Packed decision is no for every version whose wire layout differs from memory (P2).",
+     "Rules H2, W5, P2.",
+     ["values produced by value constructors are not decided"],
+     "bounded by the corpus of histories", "DESIGN.md §3 C18")
